@@ -165,6 +165,9 @@ TRAJ_POOL = [
     (("always", ("or", NOT(b), p(o1))), 0),
     (("forall", VT, ("amo", p(vT))), 0),
     (("sometime", ("and", p(o2), NOT(b))), 0),
+    # ONE conjunction-shaped constraint (as a PDDL3 (:constraints (and ...)) section gives)
+    (("and", ("always", ("or", NOT(b), p(o1))), ("sometime", b)), 1),
+    (("and", ("always", NOT(p(o2))), ("always", ("or", NOT(b), p(o1)))), 0),
 ]
 
 METRIC_POOL = [
